@@ -24,6 +24,7 @@ pub static CONSTANTS: LazyLock<IndexMap<String, PrimitiveValue>> = LazyLock::new
 });
 
 #[derive(Debug, Clone)]
+#[cfg_attr(feature = "verif-hooks", repr(u64))] // verif hook: word-sized direct tag (layout only)
 pub enum HeapValue {
     List(Vec<Value>),
     String(String),
@@ -137,7 +138,7 @@ impl Heap {
     /// Verification hook: build a heap directly from pre-constructed cells
     /// (cell 0 is whatever the caller puts there; `Heap::new()` puts the
     /// `constants` record there).
-    pub fn verif_from_values(values: Vec<HeapValue>) -> Self {
+    pub const fn verif_from_values(values: Vec<HeapValue>) -> Self {
         Self { values }
     }
 
@@ -202,6 +203,7 @@ define_pointer!(RecordPointer, "record");
 define_pointer!(LambdaPointer, "function");
 
 #[derive(Debug, Copy, Clone, Serialize, Deserialize, PartialEq, PartialOrd)]
+#[cfg_attr(feature = "verif-hooks", repr(u64))] // verif hook: word-sized direct tag (layout only)
 pub enum IterablePointer {
     List(ListPointer),
     String(StringPointer),
